@@ -672,6 +672,13 @@ func (g *FG) ResolveUnder(env Env, seen map[*GNode]bool, e ast.Expr, at *GNode) 
 							defs = append(defs, defn{x, s.Rhs[i]})
 						}
 					}
+				} else if len(s.Rhs) == 1 && (s.Tok == token.ASSIGN || s.Tok == token.DEFINE) {
+					// a, b = f(): the variable holds one of the call's results; the call expression stands for it
+					for _, l := range s.Lhs {
+						if objOf(g.Info, l) == o {
+							defs = append(defs, defn{x, s.Rhs[0]})
+						}
+					}
 				}
 			case *ast.ValueSpec:
 				for i, nm := range s.Names {
